@@ -68,7 +68,21 @@ pub fn scenario(g: &mut G, ctx: &RunCtx) -> RunReport {
         _ => Coding::None,
     };
     let n = g.size(max);
-    let payload = g.payload(n);
+    let mut payload = g.payload(n);
+    // 0 = arbitrary bytes, 1 = JSON document (json helpers), 2 = printable ASCII (text helpers)
+    let mut pkind = 0u8;
+    if g.chance(1, 6) {
+        let items: Vec<String> = (0..(n / 12).max(1)).map(|i| format!("\"k{}\":{}", i, i * 7)).collect();
+        payload = format!("{{{}}}", items.join(",")).into_bytes();
+        pkind = 1;
+        g.probe("json-payload");
+    } else if g.chance(1, 8) {
+        for (i, b) in payload.iter_mut().enumerate() {
+            *b = if i % 61 == 60 { b'\n' } else { 0x20 + (*b % 0x5f) };
+        }
+        pkind = 2;
+        g.probe("ascii-text-payload");
+    }
     let level = g.below(10) as u32;
     if level == 0 && n > 0 {
         g.probe("stored-blocks");
@@ -153,7 +167,24 @@ pub fn scenario(g: &mut G, ctx: &RunCtx) -> RunReport {
     wire.head_len = wire.bytes.len();
     httpref::encode_body(&mut wire, framing, &wire_body, &chunks, b"0", &[]);
     let (segs, seg_name) = gen::segmentation(g, wire.bytes.len(), &wire.targets.clone());
+    let mut via_text_reader = false;
     let read_mode = match g.below(6) {
+        k if pkind == 1 => {
+            if k % 2 == 0 {
+                ReadMode::Json
+            } else {
+                ReadMode::JsonUtf8
+            }
+        }
+        k if pkind == 2 && k < 4 => match k {
+            0 => ReadMode::Text,
+            1 => ReadMode::TextUtf8,
+            _ => {
+                via_text_reader = true;
+                let (v, nm) = gen::read_sizes(g);
+                ReadMode::Sizes(v, nm)
+            }
+        },
         0 => ReadMode::Bytes,
         1 => ReadMode::WriteTo,
         _ => {
@@ -177,7 +208,7 @@ pub fn scenario(g: &mut G, ctx: &RunCtx) -> RunReport {
         nsegs: segs.len(),
         end: End::Fin,
         faults: attosim::ConnFaults { window: 65536, coalesce: g.chance(1, 4), ..Default::default() },
-        via_text_reader: false,
+        via_text_reader,
         read_mode,
         rereads: if damage.is_empty() { 0 } else { g.below(3) as usize },
         read_timeout_ms: 30_000,
@@ -228,7 +259,7 @@ pub fn scenario(g: &mut G, ctx: &RunCtx) -> RunReport {
                 });
                 if !is_prefix(&o.output, &payload) {
                     violation(format!("damaged-stream-fabricated-bytes:{:?}:{}", coding, damage), format!("{} bytes delivered are not a prefix of the decoded payload", o.output.len()))
-                } else if ended_clean == Some(true) && !(damage == "truncate" && o.output.len() == payload.len() && coding == Coding::Deflate) {
+                } else if ended_clean == Some(true) && !(damage == "truncate" && (o.output.len() == payload.len() || o.text.is_some()) && coding == Coding::Deflate) {
                     // a raw deflate stream carries no length/checksum: losing only bytes after the final block's data is undetectable
                     violation(
                         format!("damaged-stream-read-as-complete:{:?}:{}:{:?}", coding, damage, framing),
